@@ -60,7 +60,19 @@ def programs(tier):
         r = list(reps.values())
         progs += [{"features": [a, b]} for a, b in itertools.product(r, repeat=2) if a != b][::3]
     else:
-        progs += [{"features": [a, b]} for a, b in itertools.product(names, repeat=2) if a != b]
+        # two representatives per feature class: all ordered pairs of them; all triples of 6 representatives
+        two = {}
+        for f in names:
+            two.setdefault(_cwl.FEATURES[f][2], [])
+            if len(two[_cwl.FEATURES[f][2]]) < 2:
+                two[_cwl.FEATURES[f][2]].append(f)
+        two["scatter"] = ["scatter3", "scatter0"]
+        two["scatter2"] = ["nested", "flat"]
+        two["loop"] = ["loop3", "loop0_all"]
+        two["when"] = ["when_false", "when_scatter"]
+        two["pick"] = ["pick_first", "pick_all"]
+        r2 = [f for v in two.values() for f in v]
+        progs += [{"features": [a, b]} for a, b in itertools.product(r2, repeat=2) if a != b]
         reps = ["expr", "scatter3", "when_false", "loop3", "subwf", "vf_other"]
         progs += [{"features": list(t)} for t in itertools.permutations(reps, 3)]
     return progs
@@ -94,7 +106,7 @@ def main(argv=None):
         "pickValue first_non_null / the_only_non_null / all_non_null, linkMerge merge_nested / merge_flattened, valueFrom on self "
         "and another input, step-input default, nested sub-workflow, cwltool:Loop with 0/1/3/15 iterations and last/all output, "
         "record and File values): every single feature + ordered pairs (quick: one representative per feature class, every "
-        "third pair; thorough: all ordered pairs of variants + all triples of 6 representatives), each run by StreamFlow's "
+        "third pair; thorough: all ordered pairs of two representatives per class + all triples of 6 representatives), each run by StreamFlow's "
         "cwl-runner and by cwltool in sub-processes; oracle: both fail or equal output objects (File values by content); "
         "distinct = (feature combination, outcome of each runner)")
     rep.assumptions = ["cwltool 3.x in /venv is the reference implementation; --no-container; in-memory StreamFlow database",
